@@ -40,8 +40,18 @@ def start_transform(C):
     return tr
 
 
+def refresh():
+    """Rebuild the per-partition context from scratch (fresh document and payload objects), so that a mutation
+    made on an earlier path - or during the vacuity twin - cannot hide in the 'before' snapshot of a later one."""
+    with rt.untraced():
+        CTX["C"] = ops.payloads(common.load({k: v for k, v in P.items() if k in ("schema", "doc", "expr")}))
+        if CTX.get("on_refresh"):
+            CTX["on_refresh"](CTX["C"])
+    return CTX["C"]
+
+
 def body(a, b, x):
-    C = CTX["C"]
+    C = refresh() if CTX.get("fresh") else CTX["C"]
     kind = P["kind"]
     nx = ops.xrange_of(C, kind)
     if not (0 <= a <= C.size and 0 <= x < nx):
